@@ -209,7 +209,7 @@ def str_literal(s, r=None):
     out = []
     for ch in s:
         if ch == "\\":
-            out.append("\\\\")
+            out.append("\\\\" if (r is None or r.random() < 0.7) else "\\x5c")
         elif ch == q:
             out.append("\\" + q)
         elif ch == "\n":
